@@ -19,7 +19,9 @@ Clauses == {"Returns", "NumericSumsPerNameAndUnit", "EveryKeyPresentOnce", "Sele
             "SectionsBlocksItemsMirrorCore", "ComponentsMirrorCore", "ItemReferencesResolve", "StepListsMatchItems", "SectionListsAreConcatenation"}
 Holds(c, r) ==
   CASE c = "Returns" -> r.obs.st # "panic"
-    [] c = "NumericSumsPerNameAndUnit" -> (r.kind_rec = "combine" /\ r.obs.st = "ok") => AsSet(r.obs.selected) = AsSet(r.combined)
+    \* also with every amount divided by 3 and by 7000 (the recorder multiplies back; -1 marks a sum that is off)
+    [] c = "NumericSumsPerNameAndUnit" -> (r.kind_rec = "combine" /\ r.obs.st = "ok") =>
+            (AsSet(r.obs.selected) = AsSet(r.combined) /\ AsSet(r.obs.selected_thirds) = AsSet(r.combined) /\ AsSet(r.obs.selected_small) = AsSet(r.combined))
     [] c = "EveryKeyPresentOnce" -> (r.kind_rec = "combine" /\ r.obs.st = "ok") => (AsSet(r.obs.keys) = AsSet(r.keys) /\ Len(r.obs.keys) = Cardinality(AsSet(r.keys)))
     [] c = "SelectionEqualsSubList" -> (r.kind_rec = "combine" /\ r.obs.st = "ok") => (AsSet(r.obs.selected) = AsSet(r.obs.sublist) /\ AsSet(r.obs.keys) = AsSet(r.obs.sublist_keys))
     [] c = "SectionsBlocksItemsMirrorCore" -> (r.kind_rec = "mirror" /\ r.obs.st = "ok") =>
